@@ -10,6 +10,11 @@ sys.path.insert(0, HERE)
 CHECKS = {}   # filled by vf/props modules that exist: id -> (category, text, note, technique, design_ref)
 
 TABLE = {
+    "C05": ("exploration",
+            "The dictionary returned by the real get_loopcarried_dependencies() is compared with an own exhaustive enumeration of winding-number-1 cycles over the dependency relation of two explicitly concatenated iterations (relation from the real create_DG on the concatenated text, cross-checked against the pure reference relation on the generator's AST): same cycles, each once, members and latency = sum along the cycle, summary figure = maximum; kernels of up to 12 instructions at file line offsets 0/500/998/5000, with and without flag dependencies.",
+            "Trusted: vf/ref_graph.cycles_winding_one, vf/depgen (R-deps); the edge relation is C03/C06's subject and disagreements there are only counted here.",
+            "runtime monitoring: reported cycles vs independent exhaustive cycle enumeration",
+            "C05"),
     "C04": ("exploration",
             "The real KernelDG.get_critical_path() result (marked lines and per-line CP latencies) is judged on the graph it was computed on by an own longest-path computation: reported total between the longest chain with and without the last instruction's independent load, never below any single instruction latency, marked lines pairwise linked, per-line values are the chain's edge weights; workload = C03's synthetic and curated kernels plus the shipped corpus on the models of its ISA.",
             "Trusted: vf/ref_graph.py; the graph itself is taken as observed (C03/C06 judge its edges).",
